@@ -500,24 +500,7 @@ class Parser:
         tok = stream.next_token()
         expr = self.parse_filter_selector(stream)
 
-        if self.env.well_typed and isinstance(expr, FunctionExtension):
-            func = self.env.function_extensions.get(expr.name)
-            if (
-                func
-                and isinstance(func, FilterFunction)
-                and func.return_type == ExpressionType.VALUE
-            ):
-                raise JSONPathTypeError(
-                    f"result of {expr.name}() must be compared", token=tok
-                )
-
-        if isinstance(expr, (Literal, Nil)):
-            raise JSONPathSyntaxError(
-                "filter expression literals outside of "
-                "function expressions must be compared",
-                token=tok,
-            )
-
+        self._raise_for_uncompared(expr, tok)
         return Filter(env=self.env, token=tok, expression=BooleanExpression(expr))
 
     def parse_boolean(self, stream: TokenStream) -> FilterExpression:
@@ -548,10 +531,9 @@ class Parser:
     def parse_prefix_expression(self, stream: TokenStream) -> FilterExpression:
         tok = stream.next_token()
         assert tok.kind == TOKEN_NOT
-        return PrefixExpression(
-            operator="!",
-            right=self.parse_filter_selector(stream, precedence=self.PRECEDENCE_PREFIX),
-        )
+        right = self.parse_filter_selector(stream, precedence=self.PRECEDENCE_PREFIX)
+        self._raise_for_uncompared(right, tok)
+        return PrefixExpression(operator="!", right=right)
 
     def parse_infix_expression(
         self, stream: TokenStream, left: FilterExpression
@@ -566,18 +548,9 @@ class Parser:
             self._raise_for_non_comparable_function(right, tok)
 
         if operator not in self.INFIX_LITERAL_OPERATORS:
-            if isinstance(left, (Literal, Nil)):
-                raise JSONPathSyntaxError(
-                    "filter expression literals outside of "
-                    "function expressions must be compared",
-                    token=tok,
-                )
-            if isinstance(right, (Literal, Nil)):
-                raise JSONPathSyntaxError(
-                    "filter expression literals outside of "
-                    "function expressions must be compared",
-                    token=tok,
-                )
+            # Operands of a logical operator are test expressions.
+            self._raise_for_uncompared(left, tok)
+            self._raise_for_uncompared(right, tok)
 
         return InfixExpression(left, operator, right)
 
@@ -743,6 +716,26 @@ class Parser:
                 raise JSONPathSyntaxError(str(err).split(":")[1], token=token) from None
 
         return token.value
+
+    def _raise_for_uncompared(self, expr: FilterExpression, token: Token) -> None:
+        """Raise if _expr_ is used as a test expression but must be compared."""
+        if self.env.well_typed and isinstance(expr, FunctionExtension):
+            func = self.env.function_extensions.get(expr.name)
+            if (
+                func
+                and isinstance(func, FilterFunction)
+                and func.return_type == ExpressionType.VALUE
+            ):
+                raise JSONPathTypeError(
+                    f"result of {expr.name}() must be compared", token=token
+                )
+
+        if isinstance(expr, (Literal, Nil)):
+            raise JSONPathSyntaxError(
+                "filter expression literals outside of "
+                "function expressions must be compared",
+                token=token,
+            )
 
     def _raise_for_non_comparable_function(
         self, expr: FilterExpression, token: Token
